@@ -1,6 +1,9 @@
 (* C19 property theorems.  Nothing but statements closed by `exact`, a pin, and Print Assumptions. *)
 From ZV.Common Require Import Base Run.
 From ZV.C19 Require Import Model ProofsBytes ProofsMv ProofsCrash ProofsRo ProofsRoCut ProofsHist.
+Require ZV.C03.Model ZV.C03.ModelStore ZV.C03.ModelPlain.
+From ZV.C19 Require Import ModelZo ProofsZo ProofsReplace ProofsZoCrash ModelPlainDir ProofsPlainDir ModelMvOps ProofsMvOps
+  ModelRoW ProofsRoW ModelMvHist ProofsMvHist ModelCases.
 Open Scope N_scope.
 
 (* a vector synced from content xs (capacity cap, arbitrary bytes in the unused capacity) reopens as exactly xs *)
@@ -168,3 +171,310 @@ Check mv_torn_rewrite_v0_refuted :
       xs <> [7; 9] /\ xs <> [7; 9; 11] /\ nlen f < mv_touched_end 8 n /\ mv_open 8 f = None.
 Print Assumptions mv_torn_rewrite_v0_refuted.
 
+(* ================================================================== second part: more of the code inside the model *)
+
+(* ZipOffsetBlobStore: the byte-level store behind a value-level store of ZV.C03.Model is written as exactly the image
+   zip_image of that model (whose agreement with the real file is checked under C03 and again here) *)
+Theorem zo_save_is_zip_image :
+  forall c st, zo_save (zo_of c st) = C03.Model.zip_image c st.
+Proof. exact zo_save_is_zip_image_proof. Qed.
+Check zo_save_is_zip_image :
+  forall c st, zo_save (zo_of c st) = C03.Model.zip_image c st.
+Print Assumptions zo_save_is_zip_image.
+
+(* save_to_writer then load_from_reader: for every store the format can carry - every content length, multiples of 16
+   (no padding) included - the file loads, as a store with the same len, the same content and the same answer to every get *)
+Theorem zo_reopen_after_save :
+  forall s, zo_wf s ->
+    exists s', zo_load (zo_save s) = Some s' /\ zo_len s' = zo_len s /\ zo_content s' = zo_content s /\
+               (forall id, zo_get s' id = zo_get s id) /\ (forall id, zo_range s' id = zo_range s id).
+Proof. exact zo_reopen_after_save_proof. Qed.
+Check zo_reopen_after_save :
+  forall s, zo_wf s ->
+    exists s', zo_load (zo_save s) = Some s' /\ zo_len s' = zo_len s /\ zo_content s' = zo_content s /\
+               (forall id, zo_get s' id = zo_get s id) /\ (forall id, zo_range s' id = zo_range s id).
+Print Assumptions zo_reopen_after_save.
+
+(* the saved file cut at any byte before its reserved 64-byte footer is refused ... *)
+Theorem zo_truncated_refused :
+  forall s k, zo_wf s -> (k + 64 < length (zo_save s))%nat -> zo_load (firstn k (zo_save s)) = None.
+Proof. exact zo_truncated_refused_proof. Qed.
+Check zo_truncated_refused :
+  forall s k, zo_wf s -> (k + 64 < length (zo_save s))%nat -> zo_load (firstn k (zo_save s)) = None.
+Print Assumptions zo_truncated_refused.
+
+(* ... and cut inside the footer (which load_from_reader never reads) it loads as the saved store: refused or the
+   synced state, for every truncation length *)
+Theorem zo_footer_cut_reopens :
+  forall s k, zo_wf s -> (length (zo_save s) <= k + 64)%nat -> zo_load (firstn k (zo_save s)) = Some s.
+Proof. exact zo_footer_cut_proof. Qed.
+Check zo_footer_cut_reopens :
+  forall s k, zo_wf s -> (length (zo_save s) <= k + 64)%nat -> zo_load (firstn k (zo_save s)) = Some s.
+Print Assumptions zo_footer_cut_reopens.
+
+(* for ANY byte string: if load accepts it, header + content + padding + offset index lie inside the file, the content
+   of the store is the file bytes [128, 128 + content_bytes), and every get reads a range inside that content *)
+Theorem zo_load_inside_file :
+  forall f s, zo_load f = Some s ->
+    zo_consumed f <= nlen f /\
+    zo_content s = firstn (N.to_nat (field f 64 8)) (skipn 128 f) /\
+    128 + nlen (zo_content s) <= nlen f /\
+    (forall id a e, zo_range s id = Some (a, e) -> a <= e /\ e <= nlen (zo_content s)).
+Proof. exact zo_load_inside_file_proof. Qed.
+Check zo_load_inside_file :
+  forall f s, zo_load f = Some s ->
+    zo_consumed f <= nlen f /\
+    zo_content s = firstn (N.to_nat (field f 64 8)) (skipn 128 f) /\
+    128 + nlen (zo_content s) <= nlen f /\
+    (forall id a e, zo_range s id = Some (a, e) -> a <= e /\ e <= nlen (zo_content s)).
+Print Assumptions zo_load_inside_file.
+
+(* the atomic-replace protocol with any number of writes to the temporary file (create+truncate, write.., fsync,
+   rename): in every crash image every file other than the temporary one is as before, except that the target may hold
+   exactly the concatenation of the writes *)
+Theorem replace_multi_crash_safe :
+  forall d path tmp ws d',
+    tmp <> path -> crash d (replace_ops path tmp ws) d' ->
+    forall q, q <> tmp -> d' q = d q \/ (q = path /\ d' q = Some (concat ws)).
+Proof. exact replace_multi_crash_safe_proof. Qed.
+Check replace_multi_crash_safe :
+  forall d path tmp ws d',
+    tmp <> path -> crash d (replace_ops path tmp ws) d' ->
+    forall q, q <> tmp -> d' q = d q \/ (q = path /\ d' q = Some (concat ws)).
+Print Assumptions replace_multi_crash_safe.
+
+(* save_to_file: every crash image leaves the store file untouched or complete, and the complete file loads as the store *)
+Theorem zo_save_crash_safe :
+  forall d path tmp s d',
+    tmp <> path -> zo_wf s -> crash d (zo_save_ops path tmp s) d' ->
+    d' path = d path \/ (d' path = Some (zo_save s) /\ zo_load (zo_save s) = Some s).
+Proof. exact zo_save_crash_safe_proof. Qed.
+Check zo_save_crash_safe :
+  forall d path tmp s d',
+    tmp <> path -> zo_wf s -> crash d (zo_save_ops path tmp s) d' ->
+    d' path = d path \/ (d' path = Some (zo_save s) /\ zo_load (zo_save s) = Some s).
+Print Assumptions zo_save_crash_safe.
+
+(* saving over an earlier save: the file loads as the earlier store or as the new one *)
+Theorem zo_resave_crash_safe :
+  forall d path tmp s0 s d',
+    tmp <> path -> zo_wf s0 -> zo_wf s -> d path = Some (zo_save s0) -> crash d (zo_save_ops path tmp s) d' ->
+    exists f, d' path = Some f /\ (zo_load f = Some s0 \/ zo_load f = Some s).
+Proof. exact zo_resave_crash_safe_proof. Qed.
+Check zo_resave_crash_safe :
+  forall d path tmp s0 s d',
+    tmp <> path -> zo_wf s0 -> zo_wf s -> d path = Some (zo_save s0) -> crash d (zo_save_ops path tmp s) d' ->
+    exists f, d' path = Some f /\ (zo_load f = Some s0 \/ zo_load f = Some s).
+Print Assumptions zo_resave_crash_safe.
+
+(* PlainBlobStore as a directory store (ZV.C03.ModelPlain: file names, temporary name + rename, rescan on reopen), for
+   every injective naming of files: every crash image of every history of put/remove, reopened, is a store in which
+   every id holds nothing, or what its file held before the history, or the complete record of one put to that id *)
+Theorem plain_crash_safe :
+  forall (nm : fname -> N), (forall a b, nm a = nm b -> a = b) ->
+    forall h d d' m st',
+    crash d (map (to_fop nm) (rops_nops h)) d' ->
+    (forall k, C03.ModelPlain.dlookup k m = d' (nm k)) -> C03.ModelPlain.plain_open m = Some st' ->
+    forall id, snd (C03.ModelPlain.plain_get st' id) = None
+               \/ snd (C03.ModelPlain.plain_get st' id) = d (nm (render id))
+               \/ exists data, In (RPut id data) h /\ snd (C03.ModelPlain.plain_get st' id) = Some data.
+Proof. exact plain_crash_safe_proof. Qed.
+Check plain_crash_safe :
+  forall (nm : fname -> N), (forall a b, nm a = nm b -> a = b) ->
+    forall h d d' m st',
+    crash d (map (to_fop nm) (rops_nops h)) d' ->
+    (forall k, C03.ModelPlain.dlookup k m = d' (nm k)) -> C03.ModelPlain.plain_open m = Some st' ->
+    forall id, snd (C03.ModelPlain.plain_get st' id) = None
+               \/ snd (C03.ModelPlain.plain_get st' id) = d (nm (render id))
+               \/ exists data, In (RPut id data) h /\ snd (C03.ModelPlain.plain_get st' id) = Some data.
+Print Assumptions plain_crash_safe.
+
+(* a leftover temporary file of an interrupted put - any bytes at all - contributes nothing to the record a later put
+   with the same id publishes: the temporary file is created truncated *)
+Theorem plain_tmp_truncated :
+  forall d path tmp garbage data,
+    tmp <> path -> d tmp = Some garbage ->
+    apply_all d (replace_ops path tmp [data]) path = Some data.
+Proof. exact plain_tmp_truncated_proof. Qed.
+Check plain_tmp_truncated :
+  forall d path tmp garbage data,
+    tmp <> path -> d tmp = Some garbage ->
+    apply_all d (replace_ops path tmp [data]) path = Some data.
+Print Assumptions plain_tmp_truncated.
+
+(* ... and without O_TRUNC (a seeded regression) the published record carries stale bytes of the leftover *)
+Theorem plain_put_notrunc_refuted :
+  exists d garbage data, d 2 = Some garbage /\
+    apply_all d (replace_ops_notrunc 1 2 [data]) 1 <> Some data /\
+    apply_all d (replace_ops 1 2 [data]) 1 = Some data.
+Proof. exact plain_put_notrunc_refuted_proof. Qed.
+Check plain_put_notrunc_refuted :
+  exists d garbage data, d 2 = Some garbage /\
+    apply_all d (replace_ops_notrunc 1 2 [data]) 1 <> Some data /\
+    apply_all d (replace_ops 1 2 [data]) 1 = Some data.
+Print Assumptions plain_put_notrunc_refuted.
+
+(* MmapVec: push (grow), pop, get_mut, truncate, clear, reserve, shrink_to_fit, resize, extend, push_bulk_simd,
+   copy_from_simd, sync, reopen, for every growth function and both sync_on_write settings: every operation history
+   keeps  length <= capacity /\ 80 + capacity*es <= file length  *)
+Theorem mv_ops_preserve_header_inv :
+  forall gf es sow s ops s',
+    st_inv es s -> st_run gf es sow s ops = Some s' -> st_inv es s'.
+Proof. exact mv_ops_preserve_header_inv_proof. Qed.
+Check mv_ops_preserve_header_inv :
+  forall gf es sow s ops s',
+    st_inv es s -> st_run gf es sow s ops = Some s' -> st_inv es s'.
+Print Assumptions mv_ops_preserve_header_inv.
+
+(* ... so the image sync() writes in any reachable state satisfies the hypotheses of mv_reopen_after_clean_sync: it
+   reopens as exactly the elements, whatever the unused capacity holds *)
+Theorem mv_ops_sync_reopens :
+  forall gf es sow ic ops s tail,
+    (es = 1 \/ es = 2 \/ es = 4 \/ es = 8) -> MV_HEADER + ic * es < W64 -> Forall (op_vals_ok es) ops ->
+    st_run gf es sow (st_create es ic) ops = Some s ->
+    nlen tail = (s_cap s - nlen (s_xs s)) * es ->
+    mv_open es (mv_image es (s_xs s) (s_cap s) tail) = Some (nlen (s_xs s), s_xs s).
+Proof. exact mv_ops_sync_reopens_proof. Qed.
+Check mv_ops_sync_reopens :
+  forall gf es sow ic ops s tail,
+    (es = 1 \/ es = 2 \/ es = 4 \/ es = 8) -> MV_HEADER + ic * es < W64 -> Forall (op_vals_ok es) ops ->
+    st_run gf es sow (st_create es ic) ops = Some s ->
+    nlen tail = (s_cap s - nlen (s_xs s)) * es ->
+    mv_open es (mv_image es (s_xs s) (s_cap s) tail) = Some (nlen (s_xs s), s_xs s).
+Print Assumptions mv_ops_sync_reopens.
+
+(* the seeded regression of copy_from_simd (reserve(other.len() - capacity())): length 14 > capacity 12, the synced file
+   is refused, a push brings elements 12, 13 back as 0; the code as it is keeps the invariant on the same input *)
+Theorem mv_copy_from_underreserve_refuted :
+  st_inv 8 bad_start /\
+  exists s, st_copy_from_bad gf_1618 8 false bad_start bad_src = Some s /\
+    s_cap s < nlen (s_xs s) /\ ~ st_inv 8 s /\
+    st_step gf_1618 8 false s OReopen = None /\
+    (exists s2, st_step gf_1618 8 false s (OPush 7) = Some s2 /\ s_xs s2 = firstn 12 bad_src ++ [0; 0; 7]) /\
+    (exists s3, st_step gf_1618 8 false bad_start (OCopyFrom bad_src) = Some s3 /\ st_inv 8 s3 /\ s_xs s3 = bad_src).
+Proof. exact mv_copy_from_underreserve_refuted_proof. Qed.
+Check mv_copy_from_underreserve_refuted :
+  st_inv 8 bad_start /\
+  exists s, st_copy_from_bad gf_1618 8 false bad_start bad_src = Some s /\
+    s_cap s < nlen (s_xs s) /\ ~ st_inv 8 s /\
+    st_step gf_1618 8 false s OReopen = None /\
+    (exists s2, st_step gf_1618 8 false s (OPush 7) = Some s2 /\ s_xs s2 = firstn 12 bad_src ++ [0; 0; 7]) /\
+    (exists s3, st_step gf_1618 8 false bad_start (OCopyFrom bad_src) = Some s3 /\ st_inv 8 s3 /\ s_xs s3 = bad_src).
+Print Assumptions mv_copy_from_underreserve_refuted.
+
+(* ZReorderMapBuilder: the header write and the flushes of the 4096-byte buffer, however many occur, hand the file exactly
+   the encoding ro_encode (for which ro_roundtrip and ro_truncated_refused hold) *)
+Theorem ro_builder_writes_concat :
+  forall vs neg, concat (ro_builder_writes vs neg) = ro_encode vs neg.
+Proof. exact ro_builder_writes_concat_proof. Qed.
+Check ro_builder_writes_concat :
+  forall vs neg, concat (ro_builder_writes vs neg) = ro_encode vs neg.
+Print Assumptions ro_builder_writes_concat.
+
+(* a build (temporary file, the writes, sync_all, rename): every crash image leaves the map file as it was or complete *)
+Theorem ro_build_crash_safe :
+  forall d path tmp vs neg d',
+    tmp <> path -> crash d (ro_build_ops path tmp vs neg) d' ->
+    d' path = d path \/ d' path = Some (ro_encode vs neg).
+Proof. exact ro_build_crash_safe_proof. Qed.
+Check ro_build_crash_safe :
+  forall d path tmp vs neg d',
+    tmp <> path -> crash d (ro_build_ops path tmp vs neg) d' ->
+    d' path = d path \/ d' path = Some (ro_encode vs neg).
+Print Assumptions ro_build_crash_safe.
+
+(* the seeded regression (an intermediate flush writes whole 4 KiB blocks only, then clears the buffer): 820 single-value
+   records lose 4 bytes and the finished file is refused *)
+Theorem ro_builder_whole_blocks_refuted :
+  concat (ro_builder_writes_bad ro_many false) <> ro_encode ro_many false /\
+  nlen (concat (ro_builder_writes_bad ro_many false)) = 4112 /\ nlen (ro_encode ro_many false) = 4116 /\
+  ro_decode (concat (ro_builder_writes_bad ro_many false)) = None /\
+  concat (ro_builder_writes ro_many false) = ro_encode ro_many false.
+Proof. exact ro_builder_whole_blocks_refuted_proof. Qed.
+Check ro_builder_whole_blocks_refuted :
+  concat (ro_builder_writes_bad ro_many false) <> ro_encode ro_many false /\
+  nlen (concat (ro_builder_writes_bad ro_many false)) = 4112 /\ nlen (ro_encode ro_many false) = 4116 /\
+  ro_decode (concat (ro_builder_writes_bad ro_many false)) = None /\
+  concat (ro_builder_writes ro_many false) = ro_encode ro_many false.
+Print Assumptions ro_builder_whole_blocks_refuted.
+
+(* MemoryMappedOutput::create, write_slice*, flush, truncate, flush (growth by 50% or to the required size, zero-filled
+   set_len): the file holds exactly the concatenation of the chunks; MemoryMappedInput returns exactly those bytes in
+   whatever slice lengths they are read and refuses one byte more *)
+Theorem mmio_roundtrip :
+  forall initial chunks s,
+    mo_run (mo_create initial) (map MWrite chunks ++ [MFlush; MTruncate; MFlush]) = Some s ->
+    o_file s = concat chunks /\ mo_inv s /\
+    (forall lens, fold_right N.add 0 lens = nlen (concat chunks) -> mi_read_all (o_file s) 0 lens = Some (concat chunks)) /\
+    mi_read (o_file s) (nlen (o_file s)) 1 = None.
+Proof. exact mmio_roundtrip_proof. Qed.
+Check mmio_roundtrip :
+  forall initial chunks s,
+    mo_run (mo_create initial) (map MWrite chunks ++ [MFlush; MTruncate; MFlush]) = Some s ->
+    o_file s = concat chunks /\ mo_inv s /\
+    (forall lens, fold_right N.add 0 lens = nlen (concat chunks) -> mi_read_all (o_file s) 0 lens = Some (concat chunks)) /\
+    mi_read (o_file s) (nlen (o_file s)) 1 = None.
+Print Assumptions mmio_roundtrip.
+
+(* every history of write_slice / seek / flush / truncate keeps |file| = capacity and position <= capacity: the slice
+   write_slice indexes always lies inside the mapping *)
+Theorem mmio_history_inv :
+  forall ops s s', mo_inv s -> mo_run s ops = Some s' -> mo_inv s'.
+Proof. exact mo_run_inv. Qed.
+Check mmio_history_inv :
+  forall ops s s', mo_inv s -> mo_run s ops = Some s' -> mo_inv s'.
+Print Assumptions mmio_history_inv.
+
+(* a set_len in front of any operation sequence (never pinned: the later fsyncs are on the temporary file): the crash
+   images are the untouched disk, those of the sequence after the set_len, and those of the sequence without it *)
+Theorem crash_setlen_compose :
+  forall d p n Y d',
+    crash d (FSetLen p n :: Y) d' -> d' = d \/ crash (apply d (FSetLen p n)) Y d' \/ crash d Y d'.
+Proof. exact crash_cons_setlen. Qed.
+Check crash_setlen_compose :
+  forall d p n Y d',
+    crash d (FSetLen p n :: Y) d' -> d' = d \/ crash (apply d (FSetLen p n)) Y d' \/ crash d Y d'.
+Print Assumptions crash_setlen_compose.
+
+(* MmapVec: whole histories of syncs and resize_to_capacity units (sync, set_len, sync) over well-formed states,
+   interrupted anywhere - set_len lost or applied, any write torn, dropped or partly rolled back: the vector file
+   reopens as an error, or as the state on disk before the history, or as one of the states of the history *)
+Theorem mv_units_crash_safe :
+  forall es path tmp s0 (us : list munit) d d',
+    tmp <> path -> ms_wf es s0 -> Forall (munit_wf es) us ->
+    d path = Some (ms_image es s0) ->
+    crash d (units_ops path tmp (map (munit_unit es) us)) d' ->
+    exists f, d' path = Some f /\
+      (mv_open es f = None \/
+       exists s, (s = s0 \/ exists u, In u us /\ In s (munit_states u)) /\
+                 mv_open es f = Some (nlen (ms_content s), ms_content s)).
+Proof. exact mv_units_crash_safe_proof. Qed.
+Check mv_units_crash_safe :
+  forall es path tmp s0 (us : list munit) d d',
+    tmp <> path -> ms_wf es s0 -> Forall (munit_wf es) us ->
+    d path = Some (ms_image es s0) ->
+    crash d (units_ops path tmp (map (munit_unit es) us)) d' ->
+    exists f, d' path = Some f /\
+      (mv_open es f = None \/
+       exists s, (s = s0 \/ exists u, In u us /\ In s (munit_states u)) /\
+                 mv_open es f = Some (nlen (ms_content s), ms_content s)).
+Print Assumptions mv_units_crash_safe.
+
+(* the same with decidable hypotheses, exactly what the harness checks on every traced history (XMvUnits): the image
+   on disk before the history and every image it syncs pass img_okb *)
+Theorem mv_traced_history_crash_safe :
+  forall es path tmp img0 us d d',
+    tmp <> path -> img_okb es img0 = true -> forallb (unit_okb es) us = true ->
+    d path = Some img0 -> crash d (units_ops path tmp us) d' ->
+    exists f, d' path = Some f /\
+      (mv_open es f = None \/
+       exists img, In img (img0 :: flat_map unit_images us) /\ mv_open es f = mv_open es img /\ mv_open es img <> None).
+Proof. exact mv_traced_history_crash_safe_proof. Qed.
+Check mv_traced_history_crash_safe :
+  forall es path tmp img0 us d d',
+    tmp <> path -> img_okb es img0 = true -> forallb (unit_okb es) us = true ->
+    d path = Some img0 -> crash d (units_ops path tmp us) d' ->
+    exists f, d' path = Some f /\
+      (mv_open es f = None \/
+       exists img, In img (img0 :: flat_map unit_images us) /\ mv_open es f = mv_open es img /\ mv_open es img <> None).
+Print Assumptions mv_traced_history_crash_safe.
